@@ -153,3 +153,25 @@ def trav_layer(seed: int, n_cases: int) -> Dict[str, Any]:
                 "sample": parts[0]["sample"], "wall_s": round(time.time() - t0, 2)}
 
     return fw.cached("trav", {"seed": seed, "n": n_cases}, compute)
+
+
+def coll_layer(seed: int, n_cases: int) -> Dict[str, Any]:
+    """function-level index operation sequences (C08)"""
+
+    def compute() -> Dict[str, Any]:
+        from . import collops
+
+        per = max(1, n_cases // N_WORKERS)
+        t0 = time.time()
+        with ProcessPoolExecutor(max_workers=N_WORKERS) as ex:
+            parts = list(ex.map(collops.worker, [(seed * 104729 + i, per) for i in range(N_WORKERS)]))
+        shapes = set()
+        findings = []
+        for p in parts:
+            shapes.update(tuple(s) for s in p["shapes"])
+            findings += p["findings"]
+        return {"cases": sum(p["n"] for p in parts), "ops": sum(p["ops"] for p in parts), "findings": findings[:40],
+                "n_findings": sum(p["n_findings"] for p in parts), "shapes": sorted(shapes), "sample": parts[0]["sample"],
+                "wall_s": round(time.time() - t0, 2)}
+
+    return fw.cached("coll", {"seed": seed, "n": n_cases}, compute)
